@@ -82,6 +82,16 @@ Section Chain.
     end.
 End Chain.
 
+(** Original-map tokens may carry no source (a one-field segment: "from here on, no original position").
+    The lookup finds them like any other token; a rewrite token that resolves to one is dropped. *)
+Section ChainOpt.
+  Context {B : Type}.
+  Definition keep_sourced (m : list (@token (option B))) : list (@token B) :=
+    flat_map (fun t => match snd t with Some b => [(fst t, b)] | None => [] end) m.
+  Definition chain_opt (m1 : list (@token pos)) (m2 : list (@token (option B))) : list (@token B) :=
+    keep_sourced (chain m1 m2).
+End ChainOpt.
+
 (** ** Base64 VLQ *)
 Definition b64_alphabet : string := "ABCDEFGHIJKLMNOPQRSTUVWXYZabcdefghijklmnopqrstuvwxyz0123456789+/".
 
